@@ -196,7 +196,7 @@ def main(tier, seed):
         return res.finish()
     wdir = os.path.join(bdir, "verif-work", "c03-%d" % os.getpid())
     os.makedirs(wdir, exist_ok=True)
-    npop = 25 if tier == "quick" else 800
+    npop = 25 if tier == "quick" else 2500
     evals = 0
     class_hist = {}
     nontrivial = set()
